@@ -258,7 +258,9 @@ class Gen:
     def s_nested(self):
         d = self.rankdims(); t = self.target(d); r = self.r
         k = r.choice(["n1", "n2", "n3", "n8"])
-        self.emit("%s %d %d %d %d" % (k, t, self.operand(d, True), self.operand(d), self.operand(d)), "nested-" + k, d, t)
+        # n8 puts its first operand under noalias(): keep the promise
+        a = self.operand(d, True, avoid=(self.info[t]["root"],) if k == "n8" else ())
+        self.emit("%s %d %d %d %d" % (k, t, a, self.operand(d), self.operand(d)), "nested-" + k, d, t)
 
     def s_wrap(self):
         d = self.rankdims(); t = self.target(d); r = self.r
@@ -316,10 +318,12 @@ class Gen:
                 self.emit("whrs %d %d %d %d" % (t, a, b, r.randint(-5, 5)), "where-scalar", d, t)
         else:
             p = self.operand(d, avoid=(troot,)); c = r.randint(-2, 2)
+            # either_or runs two passes (where.h); an operand that overlaps the target at other positions is read in the
+            # second pass after the first has written (value semantics under aliasing: C04) — keep operands off the target
             if k == "wheo":
-                self.emit("wheo %d %d %d %d %d" % (t, p, c, self.operand(d), self.operand(d)), "either_or", d, t)
+                self.emit("wheo %d %d %d %d %d" % (t, p, c, self.operand(d, avoid=(troot,)), self.operand(d, avoid=(troot,))), "either_or", d, t)
             else:
-                self.emit("wheos %d %d %d %d %d" % (t, p, c, self.operand(d), r.randint(-5, 5)), "either_or-scalar", d, t)
+                self.emit("wheos %d %d %d %d %d" % (t, p, c, self.operand(d, avoid=(troot,)), r.randint(-5, 5)), "either_or-scalar", d, t)
 
     def s_indexed(self):
         r = self.r
